@@ -284,7 +284,7 @@ Proof.
   destruct (execute_used_mono _ _ _ _ _ _ _ _ H) as [_ Hu]. unfold brank.
   destruct (find_bucket_id id (buckets s')) as [[k' b']|] eqn:E'.
   - apply find_some in E'. destruct E' as [Hin' Hid']. simpl in Hid'. apply N.eqb_eq in Hid'.
-    destruct (execute_bsource _ _ _ _ _ _ _ _ _ _ I H Hin') as [(k & b & Hin & Hid) | Hn].
+    destruct (execute_bsource _ _ _ _ _ _ _ _ _ _ I H Hin') as [(k & b & Hin & Hid) | [Hn _]].
     + destruct (find_bucket_id id (buckets s)) eqn:E; [lia|]. exfalso.
       eapply find_bucket_id_some; [|exact E]. exists k, b. split; [exact Hin | congruence].
     + rewrite Hid' in Hn. rewrite find_bucket_id_none.
